@@ -3,7 +3,7 @@
 EXTENDS Rng, Json, TLC
 CONSTANTS NSeeds, SeedBase
 VARIABLES rng, done
-Variants == <<"find", "findrec", "hdrdir", "sub", "pkg", "missingbase", "toolchain", "toolchain", "custom">>
+Variants == <<"find", "findrec", "hdrdir", "sub", "pkg", "missingbase", "toolchain", "toolchain", "custom", "hdrnodist">>
 Edits == <<"add_match", "add_other", "remove_match", "rename_match", "mkdir_sub", "add_in_sub", "rmdir_sub",
            "edit_script", "edit_options", "edit_subscript", "add_header", "mkdir_gen", "add_gen",
            "edit_toolchain", "trim_toolchain", "edit_toolchain", "add_extra">>
